@@ -522,10 +522,17 @@ func (c *Conn) ResetPollerEvent() {
 	g := p.g
 	fd := c.fd
 	if g.isOneshot && !c.closed {
-		if len(c.writeList) == 0 {
-			_ = p.resetRead(fd)
-		} else {
-			_ = p.modWrite(fd)
+		// Decide and re-arm under the connection mutex: a concurrent Write
+		// that queues data and arms EPOLLOUT must not be overwritten by a
+		// read-only re-arm chosen from a stale look at the queue.
+		c.mux.Lock()
+		if !c.closed {
+			if len(c.writeList) == 0 {
+				_ = p.resetRead(fd)
+			} else {
+				_ = p.modWrite(fd)
+			}
 		}
+		c.mux.Unlock()
 	}
 }
